@@ -347,6 +347,18 @@ func loadsField(v ssa.Value, pkg, typ, name string) bool {
 type Edge struct {
 	From *ssa.BasicBlock
 	Succ int // index into From.Succs
+	// Via, when set, restricts the edge to paths that entered From through this
+	// predecessor: the condition of From's If is a phi, and it is the value carried
+	// in from Via that was recognised (condEdges). Nil = however From was entered.
+	Via *ssa.BasicBlock
+}
+
+// condBlock: the block in which the condition recognised for e is computed.
+func condBlock(e Edge) *ssa.BasicBlock {
+	if e.Via != nil {
+		return e.Via
+	}
+	return e.From
 }
 
 type EdgeSet map[Edge]bool
@@ -367,58 +379,278 @@ func reach(fn *ssa.Function, from *ssa.BasicBlock, cut EdgeSet) map[*ssa.BasicBl
 func reachVia(fn *ssa.Function, pred, from *ssa.BasicBlock, cut EdgeSet) map[*ssa.BasicBlock]bool {
 	type state struct {
 		b    *ssa.BasicBlock
-		only int // -1: all successors, 0/1: only that successor
+		pred *ssa.BasicBlock
+	}
+	hasViaAt := map[*ssa.BasicBlock]bool{}
+	for e := range cut {
+		if e.Via != nil {
+			hasViaAt[e.From] = true
+		}
 	}
 	seen := map[*ssa.BasicBlock]bool{from: true}
 	done := map[state]bool{}
-	only := func(p, b *ssa.BasicBlock) int {
-		if p == nil || len(b.Instrs) == 0 {
-			return -1
-		}
-		iff, ok := b.Instrs[len(b.Instrs)-1].(*ssa.If)
-		if !ok {
-			return -1
-		}
-		base, neg := condNorm(iff.Cond)
-		phi, ok := base.(*ssa.Phi)
-		if !ok || phi.Block() != b {
-			return -1
-		}
-		for i, pp := range b.Preds {
-			if pp == p {
-				if k, ok := constBool(phi.Edges[i]); ok {
-					if neg {
-						k = !k
-					}
-					if k {
-						return 0
-					}
-					return 1
-				}
-			}
-		}
-		return -1
-	}
-	work := []state{{from, only(pred, from)}}
+	work := []state{{from, pred}}
 	for len(work) > 0 {
 		st := work[len(work)-1]
 		work = work[:len(work)-1]
-		if done[st] || done[state{st.b, -1}] {
+		only := decidedSucc(st.pred, st.b)
+		key := state{st.b, nil}
+		if only >= 0 || hasViaAt[st.b] {
+			key.pred = st.pred // the way in matters
+		}
+		if done[key] {
 			continue
 		}
-		done[st] = true
+		done[key] = true
 		for i, s := range st.b.Succs {
-			if cut[Edge{st.b, i}] {
+			if cut[Edge{From: st.b, Succ: i}] || (st.pred != nil && cut[Edge{From: st.b, Succ: i, Via: st.pred}]) {
 				continue
 			}
-			if st.only >= 0 && i != st.only {
+			if only >= 0 && i != only {
 				continue
 			}
 			seen[s] = true
-			work = append(work, state{s, only(st.b, s)})
+			work = append(work, state{s, st.b})
 		}
 	}
 	return seen
+}
+
+// decidedSucc: when block b is entered from predecessor p, is the outcome of b's
+// If already decided by the value a phi of b takes on that edge? Two shapes:
+// a boolean phi (what go/ssa makes of `a && b` used as a value), and a phi that is
+// compared with nil (what the inlining of a helper makes of its returned error:
+// `r = phi [nil, err, ...]; if r != nil`). Returns the successor index, or -1.
+func decidedSucc(p, b *ssa.BasicBlock) int {
+	if p == nil || len(b.Instrs) == 0 {
+		return -1
+	}
+	iff, ok := b.Instrs[len(b.Instrs)-1].(*ssa.If)
+	if !ok {
+		return -1
+	}
+	base, neg := condNorm(iff.Cond)
+	edgeOf := func(phi *ssa.Phi) ssa.Value {
+		if phi.Block() != b {
+			return nil
+		}
+		for i, pp := range b.Preds {
+			if pp == p {
+				return phi.Edges[i]
+			}
+		}
+		return nil
+	}
+	outcome := func(k bool) int {
+		if neg {
+			k = !k
+		}
+		if k {
+			return 0
+		}
+		return 1
+	}
+	switch x := base.(type) {
+	case *ssa.Phi:
+		if v := edgeOf(x); v != nil {
+			if k, ok := constBool(v); ok {
+				return outcome(k)
+			}
+		}
+	case *ssa.BinOp:
+		if x.Op != token.EQL && x.Op != token.NEQ {
+			return -1
+		}
+		var phi *ssa.Phi
+		if ph, ok := blockLocalValue(x.X).(*ssa.Phi); ok && isNilConst(x.Y) {
+			phi = ph
+		} else if ph, ok := blockLocalValue(x.Y).(*ssa.Phi); ok && isNilConst(x.X) {
+			phi = ph
+		}
+		if phi == nil {
+			return -1
+		}
+		v := edgeOf(phi)
+		if v == nil {
+			return -1
+		}
+		switch nilness(v, p) {
+		case 1: // nil
+			return outcome(x.Op == token.EQL)
+		case 2: // non-nil
+			return outcome(x.Op == token.NEQ)
+		}
+	}
+	return -1
+}
+
+// blockLocalValue resolves `*cell = v; ...; t = *cell` inside one block (a named
+// result that lives in a cell because a deferred closure captures it) to v.
+func blockLocalValue(v ssa.Value) ssa.Value {
+	u, ok := v.(*ssa.UnOp)
+	if !ok || u.Op != token.MUL || u.Block() == nil {
+		return v
+	}
+	instrs := u.Block().Instrs
+	i := instrIndex(u)
+	for k := i - 1; k >= 0; k-- {
+		switch x := instrs[k].(type) {
+		case *ssa.Store:
+			if x.Addr == u.X {
+				return x.Val
+			}
+		case ssa.CallInstruction:
+			return v
+		}
+	}
+	return v
+}
+
+// phiLive returns the inputs of phi that matter on the success path when the phi
+// is one half of a result merge: a block that merges (value, error) pairs — what
+// inlining a helper makes of its return statements — and tests the merged error
+// before anything branches. Inputs that are a zero constant travelling together
+// with a definitely non-nil error (`return 0, err`, `return nil, ErrX`) are
+// dropped: the error test that ends the block sends them down the error branch. Otherwise all inputs.
+func phiLive(phi *ssa.Phi) []ssa.Value {
+	M := phi.Block()
+	if M == nil || len(M.Instrs) == 0 {
+		return phi.Edges
+	}
+	ephi := errorCompanion(M, 0)
+	if ephi == nil || ephi == phi || ephi.Block() != M {
+		return phi.Edges
+	}
+	var live []ssa.Value
+	dropped := 0
+	for i, e := range phi.Edges {
+		if nilness(ephi.Edges[i], M.Preds[i]) == 2 {
+			// travels with a non-nil error: the error test that follows sends it to the
+			// error branch, so it is not an input of the value the success branch sees
+			dropped++
+			continue
+		}
+		live = append(live, e)
+	}
+	if dropped == 0 || len(live) == 0 {
+		return phi.Edges
+	}
+	return live
+}
+
+// errorCompanion finds the error phi of merge block M: M ends with `if e != nil`
+// (e a phi of M), or M only jumps on to a block whose own error companion takes a
+// phi of M as its input from M (an inlined helper whose last return was itself an
+// inlined call).
+func errorCompanion(M *ssa.BasicBlock, depth int) *ssa.Phi {
+	if depth > 3 || len(M.Instrs) == 0 {
+		return nil
+	}
+	switch t := M.Instrs[len(M.Instrs)-1].(type) {
+	case *ssa.If:
+		base, _ := condNorm(t.Cond)
+		bin, ok := base.(*ssa.BinOp)
+		if !ok || (bin.Op != token.EQL && bin.Op != token.NEQ) {
+			return nil
+		}
+		if p, ok := blockLocalValue(bin.X).(*ssa.Phi); ok && isNilConst(bin.Y) && p.Block() == M {
+			return p
+		}
+		if p, ok := blockLocalValue(bin.Y).(*ssa.Phi); ok && isNilConst(bin.X) && p.Block() == M {
+			return p
+		}
+	case *ssa.Jump:
+		S := M.Succs[0]
+		outer := errorCompanion(S, depth+1)
+		if outer == nil {
+			return nil
+		}
+		for i, p := range S.Preds {
+			if p == M {
+				if inner, ok := outer.Edges[i].(*ssa.Phi); ok && inner.Block() == M {
+					return inner
+				}
+			}
+		}
+	}
+	return nil
+}
+
+func isZeroConst(c *ssa.Const) bool {
+	if c.Value == nil {
+		return true // nil, or the zero value of an aggregate
+	}
+	switch c.Value.Kind() {
+	case constant.Bool:
+		return !constant.BoolVal(c.Value)
+	case constant.String:
+		return constant.StringVal(c.Value) == ""
+	case constant.Int, constant.Float, constant.Complex:
+		return constant.Sign(c.Value) == 0
+	}
+	return false
+}
+
+// nilness of v when control is in block at: 1 = nil, 2 = non-nil, 0 = unknown.
+func nilness(v ssa.Value, at *ssa.BasicBlock) int {
+	switch x := v.(type) {
+	case *ssa.Const:
+		if x.IsNil() {
+			return 1
+		}
+	case *ssa.MakeInterface, *ssa.Alloc, *ssa.MakeSlice, *ssa.MakeMap, *ssa.MakeChan, *ssa.MakeClosure, *ssa.Function:
+		return 2
+	case *ssa.Call:
+		if f := calleeFunc(x.Common()); f != nil && (funcIs(f, "errors", "", "New") || funcIs(f, "fmt", "", "Errorf")) {
+			return 2
+		}
+	case *ssa.UnOp:
+		// package-level error sentinels (io.EOF, ErrNotFound, ...) are never nil
+		if g, ok := x.X.(*ssa.Global); ok && x.Op == token.MUL && types.Identical(x.Type(), types.Universe.Lookup("error").Type()) && strings.HasPrefix(g.Name(), "Err") || ok && g.Name() == "EOF" {
+			return 2
+		}
+	}
+	// a dominating test of the same value
+	fn := at.Parent()
+	for _, q := range fn.Blocks {
+		if len(q.Instrs) == 0 {
+			continue
+		}
+		iff, ok := q.Instrs[len(q.Instrs)-1].(*ssa.If)
+		if !ok {
+			continue
+		}
+		base, neg := condNorm(iff.Cond)
+		b, ok := base.(*ssa.BinOp)
+		if !ok || (b.Op != token.EQL && b.Op != token.NEQ) {
+			continue
+		}
+		var other ssa.Value
+		if b.X == v && isNilConst(b.Y) {
+			other = b.Y
+		} else if b.Y == v && isNilConst(b.X) {
+			other = b.X
+		}
+		if other == nil {
+			continue
+		}
+		for i, sc := range q.Succs {
+			// the edge q->sc must be the only way into sc for the fact to hold in sc's dominated region
+			if len(sc.Preds) != 1 || !(sc == at || sc.Dominates(at)) {
+				continue
+			}
+			isEq := b.Op == token.EQL
+			if neg {
+				isEq = !isEq
+			}
+			taken := i == 0 // true branch
+			if isEq == taken {
+				return 1
+			}
+			return 2
+		}
+	}
+	return 0
 }
 
 // reachFromEdge: blocks reachable starting from taking edge e.
@@ -458,49 +690,32 @@ func condEdges(fn *ssa.Function, m CondMatch) []Edge {
 			continue
 		}
 		base, neg := condNorm(iff.Cond)
-		if phi, isPhi := base.(*ssa.Phi); isPhi {
-			// value form of && (all other inputs false) / || (all other inputs true)
-			var v ssa.Value
-			nTrue, nFalse, nOther := 0, 0, 0
-			for _, e := range phi.Edges {
-				if k, ok := constBool(e); ok {
-					if k {
-						nTrue++
-					} else {
-						nFalse++
-					}
-				} else {
-					nOther++
-					v = e
+		if phi, isPhi := base.(*ssa.Phi); isPhi && phi.Block() == b {
+			// The condition is a value merged from several predecessors: the value
+			// form of && / || (constant inputs, decided path-sensitively by reachVia),
+			// or the result of an inlined predicate helper. Every non-constant input
+			// that matches yields an edge qualified by the predecessor it comes from.
+			for i, ev := range phi.Edges {
+				if _, isConst := constBool(ev); isConst {
+					continue
 				}
-			}
-			if nOther == 1 && (nTrue == 0 || nFalse == 0) && nTrue+nFalse > 0 {
-				b2, neg2 := condNorm(v)
+				b2, neg2 := condNorm(ev)
 				ok, outcome := m(b2)
 				if !ok {
 					continue
 				}
-				if nTrue == 0 {
-					// phi true  =>  v true  =>  b2 == !neg2
-					if outcome == !neg2 {
-						if !neg {
-							out = append(out, Edge{b, 0})
-						} else {
-							out = append(out, Edge{b, 1})
-						}
-					}
-				} else {
-					// phi false  =>  v false  =>  b2 == neg2
-					if outcome == neg2 {
-						if !neg {
-							out = append(out, Edge{b, 1})
-						} else {
-							out = append(out, Edge{b, 0})
-						}
-					}
+				// phi true <=> ev true <=> b2 == !neg2
+				phiVal := outcome == !neg2
+				if neg {
+					phiVal = !phiVal
 				}
-				continue
+				succ := 1
+				if phiVal {
+					succ = 0
+				}
+				out = append(out, Edge{From: b, Succ: succ, Via: b.Preds[i]})
 			}
+			continue
 		}
 		ok, outcome := m(base)
 		if !ok {
@@ -512,9 +727,9 @@ func condEdges(fn *ssa.Function, m CondMatch) []Edge {
 			condVal = !outcome
 		}
 		if condVal {
-			out = append(out, Edge{b, 0})
+			out = append(out, Edge{From: b, Succ: 0})
 		} else {
-			out = append(out, Edge{b, 1})
+			out = append(out, Edge{From: b, Succ: 1})
 		}
 	}
 	return out
@@ -531,7 +746,7 @@ func edgeSet(es ...[]Edge) EdgeSet {
 }
 
 // opposite returns the other outcome edge of the same If.
-func opposite(e Edge) Edge { return Edge{e.From, 1 - e.Succ} }
+func opposite(e Edge) Edge { return Edge{From: e.From, Succ: 1 - e.Succ, Via: e.Via} }
 
 // ---- common condition recognisers ---------------------------------------------------
 
@@ -691,5 +906,30 @@ func resultIsNilConst(ret *ssa.Return, i int) bool {
 	if i >= len(ret.Results) {
 		return false
 	}
-	return isNilConst(ret.Results[i])
+	return isNilConst(retResult(ret, i))
+}
+
+// retResult resolves the spill go/ssa uses for results of functions with defers
+// (`*cell = v; rundefers; t = *cell; return t`): it returns v for such a return,
+// and the plain result otherwise.
+func retResult(ret *ssa.Return, i int) ssa.Value {
+	v := ret.Results[i]
+	u, ok := v.(*ssa.UnOp)
+	if !ok || u.Op != token.MUL {
+		return v
+	}
+	al, ok := u.X.(*ssa.Alloc)
+	if !ok || u.Block() != ret.Block() {
+		return v
+	}
+	instrs := ret.Block().Instrs
+	for k := len(instrs) - 1; k >= 0; k-- {
+		if st, ok := instrs[k].(*ssa.Store); ok && st.Addr == ssa.Value(al) {
+			if l, isLoad := st.Val.(*ssa.UnOp); isLoad && l.Op == token.MUL && l.X == ssa.Value(al) {
+				continue
+			}
+			return st.Val
+		}
+	}
+	return v
 }
